@@ -261,3 +261,30 @@ func init() {
 		varVals = append(varVals, func() interface{} { return x })
 	}
 }
+
+// ---- two DIFFERENT struct types whose reflect.Type.String() is the same ("e2.Local"): declared under the same name
+// in two functions. Anything keyed by the printed name of a type instead of its identity confuses them.
+
+func mkLocalA(v int) interface{} {
+	type Local struct {
+		Name string `valid:"required,le=3" v2:"ge=2"`
+		Age  int    `valid:"ge=18"`
+	}
+	return &Local{Name: strN(v % 6), Age: (v * 7) % 40}
+}
+
+func mkLocalB(v int) interface{} {
+	type Local struct {
+		Code  string `valid:"required,ge=4" v2:"le=1"`
+		Name  string `valid:"exist,phone"`
+		Count int    `valid:"required,le=2"`
+		Note  string `valid:"le=1"`
+	}
+	return &Local{Code: strN(v % 7), Name: phones[v%4], Count: v % 5, Note: strN(v % 3)}
+}
+
+func init() {
+	statics = append(statics,
+		typeInfo{"LocalA", mkLocalA, []string{"", "v2"}},
+		typeInfo{"LocalB", mkLocalB, []string{"", "v2"}})
+}
